@@ -39,7 +39,7 @@ def mutate_hex(rnd, h):
     return bytes(b).hex()
 
 
-MUTABLE = {"RUN": (5, 6), "RUNV": (5, 6), "SESSION": (5, 6, 7), "SESSIONV": (5, 6, 7), "EXEC": (5, 6, 7, 9), "FLAGS": (1,), "SN": (1,),
+MUTABLE = {"RUN": (5, 6), "RUNV": (5, 6), "SESSION": (5, 6, 7), "SESSIONV": (5, 6, 7), "EXEC": (5, 6, 7, 9), "EXECF": (5, 6, 7, 9), "DUAL": (), "FLAGS": (1,), "SN": (1,),
            "TXPARSE": (1,), "AMOUNT": (1,), "TXARG": (1,), "SPEND": (1, 2, 6, 8, 9), "SPENDR": (1, 2, 6, 8, 9), "TCE": (1, 2, 3), "PRUN": (1, 6, 7)}
 
 
@@ -113,6 +113,13 @@ def corpus(ctx, rnd, quick):
             sp.append("SPEND %s %s %d %d 0 - 0" % (text_mut(rnd, a).encode().hex() or "-", b.encode().hex(), rnd.choice((-1, 0, 3)), R.STD))
             sp.append("SPEND %s %s -1 %d 0 - 0" % (a.encode().hex(), text_mut(rnd, b).encode().hex() or "-", R.STD))
             sp.append("SPEND %s %s -1 %d 0 %s 0" % (a.encode().hex(), b.encode().hex(), R.STD, text_mut(rnd, "aa:bb,cc:dd").encode().hex() or "-"))
+    # structure at its limits: no outputs at all (SIGHASH_SINGLE has nothing to point at), the spent input beyond the outputs
+    for kind in S.KINDS:
+        for ht in (1, 2, 3, 0x81, 0x82, 0x83) + ((0,) if kind.startswith("p2tr") else ()):
+            for n_out in (0, 1):
+                try: s = S.build(rnd, kind, {"hashtype": ht, "n_out": n_out, "n_in": 1 if n_out == 0 else 3, "idx": 0 if n_out == 0 else 2})
+                except Exception: continue
+                sp.append(S.spend_line(s.tx, s.txin, R.STD))
     out["spend"] = sp
     tx = []
     for rep in range(300 if quick else 5000):
